@@ -256,6 +256,10 @@ class FuncAccess(MustFlow):
                     out.add(o + (expr.attr,))
             return out
         if isinstance(expr, ast.Subscript):
+            if isinstance(expr.slice, ast.Slice) and isinstance(expr.value, ast.Attribute) and \
+                    isinstance(expr.value.value, ast.Name) and expr.value.value.id == 'self' and self.is_method and \
+                    expr.value.attr in self.repo._list_attrs(self.fi.cls):
+                return {('fresh',)}        # slicing a python list copies it
             base = self.origins(expr.value, _seen, rebound)
             if _is_sparse_expr(expr.value) or not _is_basic_index(expr.slice, self):
                 # copy semantics -- except containers (lists/dicts) indexed by a Name/constant,
